@@ -243,6 +243,26 @@ func (s *asym) results(e ast.Expr) []apath {
 		if (full == "cmp.Compare" || full == "strings.Compare") && len(x.Args) == 2 {
 			return []apath{{res: ares{kind: "cmp", x: s.norm(x.Args[0]), y: s.norm(x.Args[1])}}}
 		}
+		// cmp.Or(c1, …, cn) over comparisons: the first one that is not 0 — a lexicographic chain
+		if full == "cmp.Or" && len(x.Args) >= 1 {
+			var out []apath
+			var eqs []alit
+			for i, arg := range x.Args {
+				sub := s.results(arg)
+				if len(sub) != 1 || sub[0].res.kind != "cmp" || len(sub[0].lits) != 0 {
+					s.fail("cmp.Or over something other than plain comparisons: %s", types.ExprString(arg))
+					return nil
+				}
+				r := sub[0].res
+				lits := append([]alit{}, eqs...)
+				if i < len(x.Args)-1 {
+					lits = append(lits, alit{eqAtom(r.x, r.y), false})
+				}
+				out = append(out, apath{lits: lits, res: r})
+				eqs = append(eqs, alit{eqAtom(r.x, r.y), true})
+			}
+			return out
+		}
 		if load.IsRepoPkg(fn.Pkg()) && s.depth < 2 {
 			return s.inline(fn, x)
 		}
